@@ -532,6 +532,46 @@ def replay_file(ctx, pid, path):
         ctx.log("unknown replay format")
 
 
+def status_resource(ctx):
+    """C05, the durable term: the coordinator's StatusResource is used concurrently by the shard controllers
+    (UpdateShardMetadata: term + 1 before NewTerm is sent) and by the configuration path (LoadWithVersion ...
+    Swap). StatusRes.tla (compare-and-set, atomic with every other writer) is model-checked for a durable term
+    that never decreases; the stores, loads and failed swaps recorded under a real StatusResource on a logging
+    metadata provider (one election writer, three configuration writers) are validated by TLC."""
+    import subprocess
+    quick = ctx.tier == "quick"
+    r = ctx.tlc("StatusRes", "statusres-mc.cfg", label="statusres-mc", timeout=300)
+    ctx.log("StatusRes: %d distinct states, %d transitions; TermDurableMonotone, VersionMonotone hold" % (r.distinct, r.generated))
+    binp = ctx.go_build("statuscheck")
+    accepted = 0
+    for k in range(1 if quick else 6):
+        tf = os.path.join(ctx.scratch, "status-%d.ndjson" % k)
+        p = subprocess.run([binp, "-seed", str(ctx.seed * 100 + k), "-rounds", "30" if quick else "100", "-out", tf],
+                           capture_output=True, text=True, timeout=600)
+        if p.returncode != 0:
+            raise vf.Inconclusive("statuscheck failed (exit %d): %s" % (p.returncode, p.stderr[-400:]))
+        lines = open(tf).read().splitlines()
+        r = ctx.tlc("StatusResTrace", "statusres-trace.cfg", files=[(tf, "trace.ndjson")], workers=1,
+                    label="statusres-%d" % k, seed=False, allow_violation=True, timeout=600)
+        if r.ok:
+            accepted += sum(1 for x in lines if '"round"' in x)
+            continue
+        hw = 0
+        for l in r.out.splitlines():
+            if l.startswith('<<"REJECTED"'):
+                hw = int(l.split(",")[1])
+        bad = max(0, min(hw, len(lines)) - 1)
+        start = max(j for j in range(bad + 1) if '"ev":"round"' in lines[j])
+        hist = [json.loads(x) for x in lines[start:bad + 1]]
+        pth = ctx.save_replay("statusres-%d-%d.json" % (k, start), {"round": hist, "rejected_at": bad - start, "kind": "statusres"})
+        ctx.violation("a durable store of the real StatusResource is not a step of StatusRes.tla (a Swap must take effect only "
+                      "if the version its caller loaded is still current; the durable term never decreases): rejected event %s; "
+                      "events before it: %s" % (json.dumps(hist[-1]), json.dumps(hist[-9:-1])[:900]), pth)
+        break
+    ctx.traces_validated += accepted
+    ctx.log("status resource: %d rounds of concurrent election / configuration writers accepted by StatusResTrace" % accepted)
+
+
 def ack_tracker(ctx):
     """C08, the commit rule itself: AckTracker.tla models the leader's quorum ack tracker with its API in the
     environment the leader gives it (followers may acknowledge whatever is durable on the leader, in any
@@ -744,6 +784,8 @@ def run(ctx, pid):
         write_pipe(ctx, pid)
     if pid in ("C08", "C01"):
         ack_tracker(ctx)
+    if pid == "C05":
+        status_resource(ctx)
     # the remaining replays run with shifted real terms (specification term t = real term t+1 instead of t-1):
     # protobuf omits a zero term, records of the real term 0 are shorter than all later ones
     env2 = dict(os.environ)
